@@ -39,8 +39,12 @@ def num_cases(rng, tier):
             pairs.add((a, b))
             pairs.add((b, a))
     pairs = list(pairs)
+    # zero on either or both sides is where the shortcuts and the zero-divisor aborts live: always kept
+    zero_pairs = [(0, 0)] + [(v, 0) for v in (1, 2, D, W128, W256 - 1)] + [(0, v) for v in (1, 2, D, W128, W256 - 1)]
     if tier == "quick":
-        pairs = rng.sample(pairs, 260)
+        pairs = zero_pairs + rng.sample(pairs, 260)
+    else:
+        pairs = zero_pairs + pairs
     cross = [(a, b) for a in sub for b in sub]
     if len(cross) > npairs * 4:
         cross = rng.sample(cross, npairs * 4)
@@ -65,6 +69,8 @@ def num_cases(rng, tier):
         u, n = rng.choice(g), rng.choice(g)
         d = rng.choice([0, 1, 2, D, rng.choice(g), rand_limbs(rng), max(1, u), max(1, n)])
         tri.append((u, n, d))
+    tri += [(0, 0, 0), (0, 5, 0), (5, 0, 0), (0, 0, 7), (5, 7, 0)]
+    for _ in range(0):
         if u > 0:
             tri.append((u, W256 // u, d))
             tri.append((u, W256 // u + 1, d))
